@@ -180,6 +180,51 @@ impl OW {
         sink.line(&format!("{} {h} {}", if guard { "g" } else { "w" }, op.text()), &format!("{shown}{w}"));
     }
 
+    /// several writes through ONE write guard (sync and async shared observables): each notifying write wakes the pending
+    /// subscribers, whatever is written afterwards through the same guard
+    pub fn write_guard_seq(&mut self, sink: &mut Sink, h: usize, ops: &[WOp]) {
+        let f = |id: usize| crate::eng_diff::map_fn(id);
+        macro_rules! run { ($g:expr) => {{
+            let mut g = $g;
+            for op in ops {
+                let before = self.cur;
+                let shown = match op {
+                    WOp::Set(v) => ObservableWriteGuard::set(&mut g, T(*v)).0.to_string(),
+                    WOp::Sne(v) => fmt_opt(ObservableWriteGuard::set_if_not_eq(&mut g, T(*v)).map(|t| t.0)),
+                    WOp::Shne(v) => fmt_opt(ObservableWriteGuard::set_if_hash_not_eq(&mut g, T(*v)).map(|t| t.0)),
+                    WOp::Take => ObservableWriteGuard::take(&mut g).0.to_string(),
+                    WOp::Upd(id) => { let g2 = f(*id); ObservableWriteGuard::update(&mut g, |t| t.0 = g2(t.0)); "-".into() }
+                    WOp::UpdIf(id, n) => { let g2 = f(*id); let n = *n; ObservableWriteGuard::update_if(&mut g, |t| { t.0 = g2(t.0); n }); "-".into() }
+                };
+                let (expect, notify): (String, bool) = match op {
+                    WOp::Set(v) => { self.cur = *v; (before.to_string(), true) }
+                    WOp::Take => { self.cur = 0; (before.to_string(), true) }
+                    WOp::Sne(v) => if before % 8 != *v % 8 { self.cur = *v; (fmt_opt(Some(before)), true) } else { ("none".into(), false) },
+                    WOp::Shne(v) => if hash_of(before) != hash_of(*v) { self.cur = *v; (fmt_opt(Some(before)), true) } else { ("none".into(), false) },
+                    WOp::Upd(id) => { self.cur = f(*id)(before); ("-".into(), true) }
+                    WOp::UpdIf(id, n) => { self.cur = f(*id)(before); ("-".into(), *n) }
+                };
+                if shown != expect { sink.oracle_fail(&self.p("C01"), &format!("{} through a write guard: returned {shown}, the specification says {expect}", op.text())); }
+                if notify { self.check_all_woken(sink, "a notifying update through a write guard (before the guard is dropped)"); self.mark_fresh(); }
+                let w = self.woke();
+                sink.stat("w.guardseq");
+                sink.line(&format!("g {h} {}", op.text()), &format!("{shown}{w}"));
+            }
+            drop(g);
+        }}; }
+        // the guard borrows the owner: take it out of `self` for the duration
+        let own = if self.unique.is_some() { return } else { self.clones[h].take().unwrap() };
+        match &own {
+            Own::S(ob) => run!(ob.write()),
+            Own::SA(ob) => { if let Some(g) = now(ob.write()) { run!(g) } }
+            _ => {}
+        }
+        self.clones[h] = Some(own);
+        // nothing further happens at the drop of the guard
+        let w = self.woke();
+        if w != " woke=[]" { sink.oracle_fail(&self.p("C02"), &format!("dropping the write guard woke{w} although every notifying write had already woken them")); }
+    }
+
     pub fn subscribe(&mut self, sink: &mut Sink, h: usize, reset: bool) -> usize {
         let k = match self.owner(h) {
             Own::U(o) => SubK::S(if reset { Observable::subscribe_reset(o) } else { Observable::subscribe(o) }),
@@ -224,7 +269,8 @@ impl OW {
         }
         let p = if self.asyncf { "C16," } else { "" };
         if shown != expect {
-            let prop = if expect == "End" || shown == "End" { format!("{p}C03,C01") } else { format!("{p}C01") };
+            // Pending on an ended observable: a waker was registered that nobody will ever wake (C02)
+            let prop = if expect == "End" && shown == "Pending" { format!("{p}C03,C01,C02") } else if expect == "End" || shown == "End" { format!("{p}C03,C01") } else { format!("{p}C01") };
             sink.oracle_fail(&prop, &format!("poll of subscriber {i} answered {shown}, the specification says {expect}"));
         }
         if was_parked && shown != "Pending" {
@@ -305,6 +351,18 @@ impl OW {
         sink.stat("hdrop");
         sink.line(&format!("hdrop {h}"), &format!("ok{w}"));
     }
+    /// the owner is dropped by stack unwinding (a panic is in flight while `Drop` runs)
+    pub fn owner_drop_unwinding(&mut self, sink: &mut Sink, h: usize) {
+        let o = if self.unique.is_some() { self.unique.take() } else { self.clones[h].take() };
+        let _ = std::panic::catch_unwind(std::panic::AssertUnwindSafe(move || { let _keep = o; panic!("unwinding on purpose") }));
+        if self.live_owners().is_empty() {
+            self.open = false;
+            self.check_all_woken(sink, "the drop of the last owner (by unwinding)");
+        }
+        let w = self.woke();
+        sink.stat("hdropu");
+        sink.line(&format!("hdropu {h}"), &format!("ok{w}"));
+    }
     pub fn downgrade(&mut self, sink: &mut Sink, h: usize) {
         let k = match self.owner(h) { Own::S(o) => WeakK::S(o.downgrade()), Own::SA(o) => WeakK::A(o.downgrade()), _ => unreachable!() };
         self.weaks.push(Some(k));
@@ -364,7 +422,7 @@ impl OW {
 }
 
 #[derive(Clone, Debug)]
-enum A { W(WOp, bool), Sub(bool), Poll(usize), PollT(usize), PollF(usize, u8), Next(usize), Get(usize), Reset(usize), SClone(usize, bool), SDrop(usize),
+enum A { W(WOp, bool), G2(WOp, WOp), HDropU(usize), Sub(bool), Poll(usize), PollT(usize), PollF(usize, u8), Next(usize), Get(usize), Reset(usize), SClone(usize, bool), SDrop(usize),
          HClone, HDrop(usize), Down, Up(usize), DropW(usize), CloneW(usize), Into, Counts, HGet }
 
 fn apply(w: &mut OW, sink: &mut Sink, a: &A) -> bool {
@@ -374,6 +432,8 @@ fn apply(w: &mut OW, sink: &mut Sink, a: &A) -> bool {
     let h0 = owners.first().copied();
     match a {
         A::W(op, g) => { let Some(h) = owners.last().copied() else { return false }; if *g && w.is_unique() { return false; } w.write(sink, h, op, *g) }
+        A::G2(o1, o2) => { let Some(h) = owners.last().copied() else { return false }; if w.is_unique() { return false; } w.write_guard_seq(sink, h, &[o1.clone(), o2.clone()]) }
+        A::HDropU(k) => { if owners.is_empty() { return false; } let h = owners[*k % owners.len()]; w.owner_drop_unwinding(sink, h) }
         A::Sub(r) => { let Some(h) = h0 else { return false }; w.subscribe(sink, h, *r); }
         A::Poll(i) => { if !subs.contains(i) { return false; } w.poll(sink, *i) }
         A::PollT(i) => { if !subs.contains(i) { return false; } w.poll_with(sink, *i, true) }
@@ -401,7 +461,8 @@ fn alphabet(full: bool) -> Vec<A> {
         A::W(WOp::Set(9), false), A::W(WOp::Sne(9), false), A::W(WOp::Sne(17), false), A::W(WOp::Shne(10), false), A::W(WOp::Shne(3), false),
         A::W(WOp::UpdIf(0, true), false), A::W(WOp::UpdIf(0, false), false),
         A::Sub(false), A::Sub(true), A::Poll(0), A::Poll(1), A::PollT(0), A::PollT(1), A::Next(0), A::Reset(0), A::SClone(0, false), A::SClone(0, true), A::SDrop(0),
-        A::HClone, A::HDrop(0), A::HDrop(1), A::Down, A::Up(0), A::Into,
+        A::HClone, A::HDrop(0), A::HDrop(1), A::HDropU(0), A::Down, A::Up(0), A::Into,
+        A::G2(WOp::Set(9), WOp::UpdIf(0, false)), A::G2(WOp::Sne(1), WOp::Set(3)),
     ];
     if full {
         v.extend([A::W(WOp::Take, false), A::W(WOp::Upd(1), false), A::W(WOp::Set(1), true), A::W(WOp::UpdIf(0, false), true), A::W(WOp::Sne(9), true),
@@ -472,7 +533,8 @@ pub fn run(args: &Args, sink: &mut Sink, asyncf: bool) {
         let seq: Vec<A> = (0..len).map(|_| {
             let i = r.below(4);
             match r.below(30) {
-                0..=2 => A::W(WOp::Set(r.below(40) as u64), r.chance(1, 4)),
+                0..=1 => A::W(WOp::Set(r.below(40) as u64), r.chance(1, 4)),
+                2 => { let mk = |r: &mut Rng| match r.below(5) { 0 => WOp::Set(r.below(40) as u64), 1 => WOp::Sne(r.below(40) as u64), 2 => WOp::Shne(r.below(40) as u64), 3 => WOp::UpdIf(r.below(3), r.chance(1, 2)), _ => WOp::Upd(r.below(3)) }; let a = mk(&mut r); let b = mk(&mut r); A::G2(a, b) }
                 3..=4 => A::W(WOp::Sne(r.below(40) as u64), r.chance(1, 4)),
                 5..=6 => A::W(WOp::Shne(r.below(40) as u64), r.chance(1, 4)),
                 7 => A::W(WOp::Take, r.chance(1, 4)),
@@ -481,7 +543,7 @@ pub fn run(args: &Args, sink: &mut Sink, asyncf: bool) {
                 11 => A::Sub(r.chance(1, 3)),
                 12..=14 => A::Poll(i), 15 => A::PollF(i, 1 + r.below(2) as u8), 16 => A::PollT(i),
                 17 => A::Next(i), 18 => A::Get(i), 19 => A::Reset(i), 20 => A::SClone(i, r.chance(1, 2)), 21 => A::SDrop(i),
-                22 => A::HClone, 23 => A::HDrop(r.below(3)), 24 => A::Down, 25 => A::Up(r.below(3)), 26 => if r.chance(1, 2) { A::DropW(r.below(3)) } else { A::CloneW(r.below(2)) },
+                22 => A::HClone, 23 => if r.chance(1, 4) { A::HDropU(r.below(3)) } else { A::HDrop(r.below(3)) }, 24 => A::Down, 25 => A::Up(r.below(3)), 26 => if r.chance(1, 2) { A::DropW(r.below(3)) } else { A::CloneW(r.below(2)) },
                 27 => A::Into, 28 => A::Counts, _ => A::HGet,
             }
         }).collect();
@@ -497,7 +559,7 @@ pub fn run(args: &Args, sink: &mut Sink, asyncf: bool) {
 fn run_cross(sink: &mut Sink, asyncf: bool) {
     let per_sub = if asyncf { 2 } else { 1 }; // async subscribers hold two references (known finding D8)
     macro_rules! scen { ($new:expr, $flav:ty, $sub:expr, $tag:expr) => {{
-        for variant in 0..4 {
+        for variant in 0..6 {
             sink.case(&format!("XCF:{}:{variant}", $tag));
             let a: SharedObservable<T, $flav> = $new(T(1));
             let b: SharedObservable<T, $flav> = $new(T(2));
@@ -515,10 +577,25 @@ fn run_cross(sink: &mut Sink, asyncf: bool) {
                 0 => { a2.clone_from(&b); expect("after a2.clone_from(&b)", 1, 1, 3, 1, sink); }
                 1 => { a2 = b.clone(); expect("after a2 = b.clone()", 1, 1, 3, 1, sink); }
                 2 => { sa.clone_from(&sb); expect("after sa.clone_from(&sb)", 2, 0, 2, 2, sink); }
-                _ => { sa = sb.clone(); expect("after sa = sb.clone()", 2, 0, 2, 2, sink); }
+                3 => { sa = sb.clone(); expect("after sa = sb.clone()", 2, 0, 2, 2, sink); }
+                _ => {}
             }
             drop(b2);
-            match variant { 0 | 1 => expect("after dropping a clone of b", 1, 1, 2, 1, sink), _ => expect("after dropping a clone of b", 2, 0, 1, 2, sink) }
+            match variant { 0 | 1 => expect("after dropping a clone of b", 1, 1, 2, 1, sink), 2 | 3 => expect("after dropping a clone of b", 2, 0, 1, 2, sink), _ => {} }
+            if variant >= 4 {
+                // the LAST owner of `a` is overwritten by a handle of `b`: `a` has no owner left, its stream ends (C03)
+                let wa = a2.downgrade();
+                drop(a);
+                if variant == 4 { a2.clone_from(&b); } else { a2 = b.clone(); }
+                let (_f, w) = flag_waker();
+                let mut cx = Context::from_waker(&w);
+                let r1 = Pin::new(&mut sa).poll_next(&mut cx);
+                if !matches!(r1, Poll::Ready(None)) { sink.oracle_fail("C03", &format!("the last owner of an observable was overwritten by {}; its subscriber's stream does not end", if variant == 4 { "clone_from(&other)" } else { "= other.clone()" })); }
+                if wa.upgrade().is_some() { sink.oracle_fail("C03", "the last owner of an observable was overwritten; a weak reference still upgrades"); }
+                sink.line(&format!("xcf {} {variant}", $tag), "ok");
+                sink.nontrivial();
+                continue;
+            }
             let _ = (&a2, &sa, &sb);
             sink.line(&format!("xcf {} {variant}", $tag), "ok");
             sink.nontrivial();
@@ -535,7 +612,7 @@ fn run_cross(sink: &mut Sink, asyncf: bool) {
 // async-lock flavour with guards held across other calls, pending futures, cancellation (C16)
 use eyeball::ObservableReadGuard;
 
-enum FOut { Sne(Option<u64>, u64), Val(u64), NewSub(Subscriber<T, AsyncLock>), Res(String), RG(ObservableReadGuard<'static, T, AsyncLock>), WG(ObservableWriteGuard<'static, T, AsyncLock>), RGV(ObservableReadGuard<'static, T, AsyncLock>) }
+enum FOut { Sne(Option<u64>, u64), UpdIf(usize, bool), Val(u64), NewSub(Subscriber<T, AsyncLock>), Res(String), RG(ObservableReadGuard<'static, T, AsyncLock>), WG(ObservableWriteGuard<'static, T, AsyncLock>), RGV(ObservableReadGuard<'static, T, AsyncLock>) }
 struct PFut { f: Pin<Box<dyn Future<Output = FOut>>>, flag: Arc<Flag>, waker: Waker, woken: bool, val: Option<u64>, sub: Option<usize>,
               /// a `next_ref()` future (its polls are printed with the wakers they cause)
               nextref: bool }
@@ -612,10 +689,22 @@ impl GW {
                 } else if T(self.cur) != T(v) { sink.oracle_fail("C16,C04", &format!("set_if_not_eq({v}) did nothing although the latest value {} differs", self.cur)); }
                 FOut::Res(fmt_opt(r))
             }
+            FOut::UpdIf(id, notify) => {
+                self.cur = crate::eng_diff::map_fn(id)(self.cur);
+                if notify { self.mark_fresh(); }
+                else {
+                    // C01 / C16: an update_if whose closure answers false notifies nobody: a subscriber parked on the version
+                    // (not waiting for the lock) is not woken by it
+                    for (i, s) in self.subs.iter().enumerate() { if let Some(s) = s { if s.parked && !self.lockwait[i] && !self.under_w[i] && s.flag.0.load(Ordering::SeqCst) {
+                        sink.oracle_fail("C16,C01", &format!("update_if whose closure returned false woke subscriber {i}, which was waiting for an update"));
+                    } } }
+                }
+                FOut::Res("-".into())
+            }
             o => o,
         };
         match out {
-            FOut::Sne(..) => unreachable!(),
+            FOut::Sne(..) | FOut::UpdIf(..) => unreachable!(),
             FOut::Res(r) => {
                 if let Some(v) = notify_to { if r != "none" { self.cur = v; self.mark_fresh(); } }
                 let w = self.woke(); let wf = self.wokef();
@@ -642,6 +731,14 @@ impl GW {
             Box::pin(async move { FOut::Res(ob.set(T(v)).await.0.to_string()) })
         };
         self.start(sink, &text, f, Some(v));
+    }
+    /// `update_if` as a future (it waits for the write lock): the closure maps the value with table function `id` and
+    /// answers `notify`
+    fn write_updif(&mut self, sink: &mut Sink, id: usize, notify: bool) {
+        let ob = self.ob;
+        let g = crate::eng_diff::map_fn(id);
+        let text = format!("w 0 updif {id} {}", notify as u8);
+        self.start(sink, &text, Box::pin(async move { ob.update_if(move |t| { t.0 = g(t.0); notify }).await; FOut::UpdIf(id, notify) }), None);
     }
     fn wguard(&mut self, sink: &mut Sink) { let ob = self.ob; self.start(sink, "awg 0", Box::pin(async move { FOut::WG(ob.write().await) }), None); }
     fn rguard(&mut self, sink: &mut Sink) { let ob = self.ob; self.start(sink, "arg 0", Box::pin(async move { FOut::RG(ob.read().await) }), None); }
@@ -903,7 +1000,8 @@ pub fn run_guards(args: &Args, sink: &mut Sink) {
             let live_futs: Vec<usize> = w.futs.iter().enumerate().filter(|(_, s)| s.is_some()).map(|(i, _)| i).collect();
             let live_guards: Vec<usize> = w.guards.iter().enumerate().filter(|(_, s)| s.is_some()).map(|(i, _)| i).collect();
             match r.below(16) {
-                0 | 1 => w.write(sink, r.below(30) as u64, r.chance(1, 3)),
+                0 => w.write(sink, r.below(30) as u64, r.chance(1, 3)),
+                1 => if r.chance(1, 2) { w.write_updif(sink, r.below(3), r.chance(1, 2)) } else { w.write(sink, r.below(30) as u64, r.chance(1, 3)) },
                 2 => if live_guards.len() < 3 { w.wguard(sink) },
                 3 | 4 => if live_guards.len() < 3 { w.rguard(sink) },
                 5 | 6 if !live_guards.is_empty() => w.gdrop(sink, live_guards[r.below(live_guards.len())]),
